@@ -596,8 +596,8 @@ def generate(rng, tier, outdir):
     w = CaseWriter(outdir, IMPORTS, CASE_TYPES)
     w.SHARD = 160
     quick = tier == "quick"
-    n_main = 560 if quick else 6000
-    n_deep = 24 if quick else 240
+    n_main = 500 if quick else 6000
+    n_deep = 16 if quick else 240
     n_bad = 200 if quick else 1500
     n_tol = 160 if quick else 1500
     n_multi = 60 if quick else 600
